@@ -181,6 +181,13 @@ func (a *AMF) AbortDue() bool {
 	return true
 }
 
+// Activity counts the messages seen in both directions (safe to call from another goroutine).
+func (a *AMF) Activity() int {
+	a.mu.Lock()
+	defer a.mu.Unlock()
+	return a.ULRecv + a.DLSent
+}
+
 // NViolations is safe to call from another goroutine than the one feeding HandleUplink.
 func (a *AMF) NViolations() int {
 	a.mu.Lock()
